@@ -147,6 +147,45 @@ func play(evs []event, st *store) []outc {
 	return outs
 }
 
+// playAPI runs a history through the package-level API (api.go): Init(workerId, store) creates
+// and initialises the global generator — and keeps the previous one if the store fails —,
+// NextID() is MustNext() on it.  In the history every api Init is a New + Init of a fresh
+// generator index and every Next addresses the index of the latest successful Init.
+func playAPI(evs []event, st *store) []outc {
+	outs := make([]outc, len(evs))
+	cur := int64(-1)
+	for i := range evs {
+		e := &evs[i]
+		st.pending, st.asked = &e.a, false
+		var o outc
+		switch e.op {
+		case 1:
+			var err error
+			if p, _ := Catch(func() { err = uuid.Init(4321, st) }); p {
+				o.kind = 5
+			} else if err == nil {
+				o.kind, cur = 1, e.g
+			} else {
+				o.kind = classify(err)
+			}
+		case 2:
+			if e.g == cur {
+				var id int64
+				if p, v := Catch(func() { id = uuid.NextID() }); !p {
+					o.kind, o.value = 2, id
+				} else if msg, ok := v.(string); ok && (strings.Contains(msg, errBefore.Error()) || strings.Contains(msg, errAfter.Error())) {
+					o.kind = 3
+				} else {
+					o.kind = 5
+				}
+			}
+		}
+		o.asked = st.asked
+		outs[i] = o
+	}
+	return outs
+}
+
 func outsSx(outs []outc) Sx {
 	l := make([]Sx, len(outs))
 	for i, o := range outs {
@@ -175,6 +214,9 @@ func run(in Sx) Sx {
 	var raws []int64
 	for _, s := range in.At(1).L {
 		raws = append(raws, s.Int64())
+	}
+	if in.Len() > 2 { // (events raws 1): through the package-level API
+		return List(outsSx(playAPI(evs, &store{})), guardSx(runGuard(raws)))
 	}
 	outs := play(evs, &store{})
 	return List(outsSx(outs), guardSx(runGuard(raws)))
@@ -522,6 +564,7 @@ func gen(a Args, out *Out) {
 		record(style, evs, outs, raws)
 	}
 	genConcurrent(a, out, r.Fork())
+	genAPI(a, out, r.Fork())
 	// the default step: a whole segment of 2000 ids and the roll-over, two generators
 	nlong := 3
 	if a.Thorough() {
@@ -573,4 +616,65 @@ func concurrent() {
 		}
 	}
 	fmt.Printf("concurrent: 40 scenarios, %d linearised calls, property holds\n", calls)
+}
+
+// genAPI: histories through uuid.Init / uuid.NextID (default step 2000).
+func genAPI(a Args, out *Out, r *Rng) {
+	n := 4
+	if a.Thorough() {
+		n = 30
+	}
+	for k := 0; k < n; k++ {
+		var evs []event
+		gi := int64(0)
+		cur := int64(-1)
+		ctr := int64(r.Range(1, 90))
+		initOnce := func() {
+			evs = append(evs, event{op: 0, g: gi, step: uuid.DefaultSeqStep})
+			ctr += int64(r.Range(1, 3))
+			switch r.Intn(4) {
+			case 0:
+				evs = append(evs, event{op: 1, g: gi, a: answer{kind: 1}})
+			case 1:
+				evs = append(evs, event{op: 1, g: gi, a: answer{2, ctr}})
+			default:
+				evs = append(evs, event{op: 1, g: gi, a: answer{0, ctr}})
+				cur = gi
+			}
+			gi++
+		}
+		for cur < 0 {
+			initOnce()
+		}
+		calls := r.Range(5, 60)
+		if k == 0 {
+			calls = 2005 // across the roll-over of the default step
+		}
+		issued := 0
+		for i := 0; i < calls; i++ {
+			if r.Chance(1, 25) && k != 0 {
+				initOnce()
+				issued = 0
+				continue
+			}
+			ev := event{op: 2, g: cur, a: answer{kind: 1}}
+			if issued == int(uuid.DefaultSeqStep) {
+				// the roll-over: first a failure, then a fresh counter
+				evs = append(evs, event{op: 2, g: cur, a: answer{2, ctr + 1}})
+				ctr += 2
+				ev.a = answer{0, ctr}
+				issued = 0
+			}
+			issued++
+			evs = append(evs, ev)
+		}
+		outs := playAPI(evs, &store{})
+		in := List(eventsSx(evs), Ints(), Int(1))
+		obs := List(outsSx(outs), guardSx(nil))
+		out.Case("api", true, in, obs)
+		out.GoChecked++
+		if what, ok := goCheck(evs, outs); !ok {
+			out.Violation("C08/go-"+what+"/api", "segment id property fails through uuid.Init/NextID: "+what, List(in, obs))
+		}
+	}
 }
